@@ -87,7 +87,7 @@ fn parsed<I: ParseInst>(s: &str, st: &mut Stats) -> Result<(), String> {
     Ok(())
 }
 
-fn parsed_all(s: &str, st: &mut Stats) -> Result<(), String> {
+pub fn parsed_all(s: &str, st: &mut Stats) -> Result<(), String> {
     parsed::<IStr>(s, st)?;
     parsed::<ISmall>(s, st)?;
     parsed::<ITyped>(s, st)
